@@ -84,6 +84,8 @@ theorem runLocal_gate (s : MState) (acts : List RAct) :
   | cons a rest ih =>
     cases a with
     | reply l => simp [runLocal]; exact fun h => .inl h
+    | quit => simp [runLocal]; exact fun h => .inl h
+    | poolShutdown => simp [runLocal]; exact fun h => .inl h
     | submit m id toks =>
       simp only [runLocal]
       cases hd : decodeRequest m toks with
@@ -146,7 +148,8 @@ theorem mreach_gate_inv {cfg : SrvCfg} {n : Nat} {s : MState} {log : List String
   | @step s s' log env tid op effs _ hs ih =>
     have hrst := mstep_rst hs
     rcases mstep_cases hs with ⟨hp, hq, -, hne⟩ | ⟨hR, h2, rfl, hrq, c, rest, hin, he⟩ | ⟨-, l, rest, hrq, rfl, -⟩ |
-      ⟨hR, a, p, pe, hns, hp, rfl, -⟩
+      ⟨hR, a, p, pe, hns, hp, rfl, -⟩ |
+      ⟨-, -, -, -, rest, hrq, rfl, -⟩ | ⟨-, -, -, -, -, -, -, rfl, -⟩ | ⟨-, -, -, -, -, -, -, -, rfl, -⟩
     · have hr : s'.rst = s.rst := by
         rcases hrst with h | ⟨h1, h2⟩
         · exact h
@@ -167,7 +170,7 @@ theorem mreach_gate_inv {cfg : SrvCfg} {n : Nat} {s : MState} {log : List String
       rcases hpre with h | ⟨m, id, toks, h⟩
       · exact key (g3 h)
       · exact key (.inr ⟨m, id, toks, g2 _ h⟩)
-    · obtain ⟨g1, g2, g3, -⟩ := runLocal_gate { s with sendQ := s.sendQ ++ [l] } rest
+    · obtain ⟨g1, g2, g3, -⟩ := runLocal_gate { s with sendQ := s.sendQ ++ [some l] } rest
       intro hpre
       rw [g1]
       apply ih
@@ -186,6 +189,17 @@ theorem mreach_gate_inv {cfg : SrvCfg} {n : Nat} {s : MState} {log : List String
         simp at this
         exact h this
       · exact .inr h
+    · intro hpre
+      apply ih
+      rcases hpre with h | ⟨m, id, toks, h⟩
+      · exact .inl h
+      · exact .inr ⟨m, id, toks, by rw [hrq]; exact List.mem_cons_of_mem _ h⟩
+    · exact ih
+    · intro hpre
+      apply ih
+      rcases hpre with h | ⟨m, id, toks, h⟩
+      · exact .inl h
+      · simp at h
 
 /-- **C10 on the Metadata server model.** In every reachable state, if any pool task exists or is owed by the
     reader, the init request has been received (and, the reader being sequential, `initialize` has returned). -/
@@ -246,7 +260,7 @@ theorem mstep_writer_enabled (s : MState) (env : InitEnv) (hw : s.wthr = 2) :
   · intro h1 h2
     cases hq : s.sendQ with
     | nil => exact absurd hq h2
-    | cons c rest => simp [mstep, hw, h1, hq]
+    | cons c rest => cases c <;> simp [mstep, hw, h1, hq]
   · intro m h1
     simp [mstep, hw, h1]
 
